@@ -148,11 +148,22 @@ void LoopWDog::Start() {
 }
 
 void LoopWDog::Stop() {
-    std::lock_guard<std::mutex> lg(_mutex_lock);
-    if (_keep_running) {
-        _keep_running = false;
-        _sp_thread->join();
-        CHECK_DELETE_RESET_OBJ(_sp_thread);
+    std::thread *thread = nullptr;
+    {
+        std::lock_guard<std::mutex> lg(_mutex_lock);
+        if (_keep_running) {
+            _keep_running = false;
+            std::swap(thread, _sp_thread);
+        }
+    }
+
+    if (thread != nullptr) {
+        //! 注意：不能在持有 _mutex_lock 的情况下 join()
+        //! 否则监控线程若正在 SendLoopFunc() 或 CheckLoopTag() 中等待该锁，就会死锁
+        thread->join();
+        delete thread;
+
+        std::lock_guard<std::mutex> lg(_mutex_lock);
         _loop_info_vec.clear();
     }
 }
